@@ -102,10 +102,15 @@ func ReadRequest(r *bufio.Reader) (*Request, error) {
 
 	// 读取Body
 	cl := req.Header.Int(FieldContentLength)
+	if cl > maxBodyLength { // 荒谬的 Content-Length：拒绝，而不是分配并等待
+		return nil, &badStringError{"Content-Length too large", req.Header.get(FieldContentLength)}
+	}
 	if cl > 0 {
 		// 读取 n 字节的字串Body
 		body := make([]byte, cl)
-		_, err = io.ReadFull(r, body)
+		if _, err = io.ReadFull(r, body); err != nil { // 流在 Body 中途结束：是错误，不是消息
+			return nil, err
+		}
 		req.Body = string(body)
 	}
 	return req, nil
